@@ -41,3 +41,11 @@ Qed.
 
 Lemma gen_compared_attrs : g_compared_attrs = compared_attrs.
 Proof. reflexivity. Qed.
+
+Lemma gen_clean_pops : g_clean_pops = clean_pops.
+Proof. reflexivity. Qed.
+Lemma gen_twin_attrs : g_twin_attrs = twin_attrs /\ twin_attrs = compared_attrs.
+Proof. split; reflexivity. Qed.
+
+Lemma gen_rev_keeps n el : g_rev_keeps n el = rev_keeps n el.
+Proof. reflexivity. Qed.
